@@ -2674,6 +2674,6 @@ func main() {
 			}
 		}
 	}
-	rule := "one request per case against a freshly served res.Service on a recording connection (scripts of 0-6 actions per handler, panic values incl. real runtime errors: index out of range, nil map write, nil dereference, divide by zero, failed type assertion; product of request type x method case {named,*,none,new with/without New handler,empty} x resource matched/unmatched x handler present/absent x payload {full,partial,empty,{},null,6 undecodable texts} + random shapes + malformed subjects + 2 rounds of 200 concurrent requests over 20 resource patterns, each request on its own resource name with payload values unique to it, handlers yielding before they read, compared per reply subject and per-request handler observations + 2 rounds of 200 requests on patterns with 12 path params routed while 4 goroutines call Service.With / Service.Resource on other names of the same token count (the load rounds have 3 such goroutines too); params and group expected in concurrent cases are derived from the subject with Pattern.Values + 60 overlap pairs: request A stopped inside its handler before (or between two) reads of its fields until request B on another worker group was processed completely, half of them under GOMAXPROCS=1); non-trivial = well-formed request whose pattern carries a non-empty script or whose payload does not decode; distinct by the whole case term"
+	rule := "one request per case against a freshly served res.Service on a recording connection (scripts of 0-6 actions per handler, panic values incl. real runtime errors: index out of range, nil map write, nil dereference, divide by zero, failed type assertion; product of request type x method case {named,*,none,new with/without New handler,empty} x resource matched/unmatched x handler present/absent x payload {full,partial,empty,{},null,6 undecodable texts} + random shapes + malformed subjects + 2 rounds of 200 concurrent requests over 20 resource patterns, each request on its own resource name with payload values unique to it, handlers yielding before they read, compared per reply subject and per-request handler observations + 2 rounds of 200 requests on patterns with 12 path params routed while 4 goroutines call Service.With / Service.Resource on other names of the same token count (the load rounds have 3 such goroutines too); params and group expected in concurrent cases are derived from the subject with Pattern.Values + payloads that start with a valid JSON value (trailing bytes, two concatenated values, NUL/BOM/whitespace variants; validity judged by json.Valid on the bytes sent) + 6 queue-flood scenarios (in-channel size 1/2/4, 1-2 workers all held in stopped handlers, 40 requests on distinct and repeated resources delivered meanwhile, 6 more after release; thorough also the default 1024/32 with 3000 pending) + 60 overlap pairs: request A stopped inside its handler before (or between two) reads of its fields until request B on another worker group was processed completely, half of them under GOMAXPROCS=1); non-trivial = well-formed request whose pattern carries a non-empty script or whose payload does not decode; distinct by the whole case term"
 	Emit(o, *prop, "From GoRes Require Import Run.Run_"+*prop+".", "rcase", rule, cases, dist, map[string]interface{}{"children_crashed": dist["crashed"], "racing_lookups_made": totalLookups}, impl, 250)
 }
